@@ -147,6 +147,7 @@ class Ctx(object):
         self.notes = {}
         self.caps_hit = []
         self.replayed = 0
+        self.nondet = []
         self.guards = []
         self.sweeps = []
         self._pool = None
@@ -223,8 +224,11 @@ class Ctx(object):
                     raise HarnessError("worker failure in replay of %s: %s" % (name, agg["err"]))
                 for i, d in agg["dg"].items():
                     self.replayed += 1
-                    if d != want[i]:
-                        raise HarnessError("NONDETERMINISM in %s: case #%d %r gives digest %s, then %s"
+                    if d != want[i] and not self.nondet:
+                        # deferred: the remaining sweeps still run, because on a tree that leaks state or object
+                        # addresses into observations a later sweep usually shows the violation behind it (violations
+                        # beat harness errors); without any violation the run still ends as a harness error
+                        self.nondet.append("NONDETERMINISM in %s: case #%d %r gives digest %s, then %s"
                                            % (name, i, bycase[i], want[i], d))
         self.sweeps.append({"name": name, "executions": total, "wall_s": round(time.time() - t0, 2)})
         return kept
@@ -430,6 +434,8 @@ def main(argv):
         exc = traceback.format_exc()
     finally:
         ctx.close()
+    if exc is None and ctx.nondet:
+        exc = HarnessError(ctx.nondet[0])
     return finish(ctx, module, exc)
 
 
